@@ -109,6 +109,22 @@ func vRdvUUID(rng *rand.Rand) string {
 	for i := range b {
 		b[i] = vRdvChars[rng.Intn(len(vRdvChars))]
 	}
+	switch rng.Intn(3) {
+	case 0:
+		// 27 characters, but not of the cluster-type-suffix shape: the statement's formula
+		// (last 15 characters of the 27-character uuid) does not depend on where the dashes are
+		c := make([]byte, 27)
+		for i := range c {
+			c[i] = vRdvChars[rng.Intn(len(vRdvChars))]
+			if i > 0 && i < 26 && rng.Intn(9) == 0 {
+				c[i] = '-'
+			}
+		}
+		return string(c)
+	case 1:
+		// canonical prefix, a dash inside the 15-character suffix
+		b[1+rng.Intn(13)] = '-'
+	}
 	return "zzzzz-bi6l4-" + string(b)
 }
 
